@@ -5,7 +5,7 @@
    Quantification over parameter values: every phase ring R and atoms A (u = e^{i pi/16}, z_j = e^{i theta_j/4}). *)
 From Coq Require Import Lia.
 From QV Require Import Model.QasmImport Spec.QasmSem Found.Circ Gen.Gates Gen.Qasm.
-From QV Require Import Proofs.QasmShortcut Proofs.QasmIf Proofs.QasmSubst Proofs.QasmRegs Proofs.QasmRejects Proofs.QasmCustom.
+From QV Require Import Proofs.QasmShortcut Proofs.QasmIf Proofs.QasmSubst Proofs.QasmRegs Proofs.QasmRejects Proofs.QasmCustom Proofs.QasmSem1 Proofs.QasmSem2 Proofs.QasmSound Proofs.QasmTotal1 Proofs.QasmTotal2.
 Local Open Scope string_scope.
 Local Open Scope nat_scope.
 Local Open Scope list_scope.
@@ -129,12 +129,45 @@ Theorem import_rejects_bad_body : forall (A : VAlg) p n d h args hq,
 Proof. exact rejects_bad_body. Qed.
 Print Assumptions import_rejects_bad_body.
 
-(* import_sound, PARTIAL.  Full statement: for every well-formed program p (wf lib_sigs p = true), import_prog p = Some c and
-   c has the branch semantics of spec_prog p up to one phase per measurement record.  Proved: its ingredients for all inputs -
-   shortcut_ok (every library-level gate), import_regs_ok (arguments and broadcast), import_if_ok / import_if_never
-   (classical conditions), custom_gate_ok (user gates, soundness direction), the rejection theorems.  NOT proved: totality
-   (a well-formed program is never refused) and the composition over whole programs (measurement mapping, phases);
-   this is tied by the correspondence check (model = real code, exactly) and the independent evaluator (real code = standard). *)
+(* import_sound.  For EVERY program the importer model accepts (non-empty quantum registers), and for every phase ring R and
+   every assignment aenv of atoms (the values e^{i v/4}) to lists of parameter values: the imported circuit and the standard's
+   meaning of the program (spec_prog: broadcast, macro expansion of user gates to library-level leaves, measure, if; each
+   leaf denoting its qelib1.inc definition expanded to U/CX, Spec/QasmSem.v) have the same branch semantics - started from
+   the same classical bits, the same outcome record and states equal up to a scalar, they end with the same classical
+   bits, the same remaining record and states equal up to a scalar (one scalar per measurement record).
+   run_iops / run_sops: gates applied iff their classical condition holds (importer: first listed control = highest bit;
+   standard: register as an integer, bit 0 = c[0]), a measurement consumes the next outcome of the record, projects the
+   qubit and writes the classical bit.  The signature table sig0 used as the set of library-level gates equals the
+   standard's by shortcut_table_complete. *)
+Theorem import_sound : forall (R : PhaseRing) (A : VAlg) (aenv : list A -> atoms R) p n c iops n' c' sops,
+  forallb (fun r => 0 <? snd r) (p_qregs p) = true ->
+  import_prog A p = Some (n, c, iops) -> spec_prog A sig0 p = Some (n', c', sops) ->
+  n = n' /\ c = c' /\
+  forall cb r psi1 psi2, rel R psi1 psi2 ->
+    creq R (run_iops R A aenv iops (cb, psi1, r)) (run_sops R A aenv sops (cb, psi2, r)).
+Proof. exact import_sound_run. Qed.
+Print Assumptions import_sound.
+
+(* the measurement-free, unconditioned case: the imported circuit is the standard's circuit times ONE global scalar *)
+Theorem import_sound_unitary : forall (R : PhaseRing) (A : VAlg) (aenv : list A -> atoms R) p n c iops n' c' sops,
+  forallb (fun r => 0 <? snd r) (p_qregs p) = true -> forallb unitary_op (p_ops p) = true ->
+  import_prog A p = Some (n, c, iops) -> spec_prog A sig0 p = Some (n', c', sops) ->
+  n = n' /\ forall psi, exists s : R, forall x,
+    sem (circ_of_iops R A aenv iops) psi x = kmul R s (sem (circ_of_sops R A aenv sops) psi x).
+Proof. exact import_sound_unitary_thm. Qed.
+Print Assumptions import_sound_unitary.
+
+(* import_total: a program that is well-formed per the standard (Spec/Qasm.v wf over built-ins + qelib1.inc: names declared
+   before use and once, arities, indices in range, equal register sizes in a broadcast, pairwise distinct qubits after
+   broadcast, plain closed parameter expressions, non-empty registers, every gate body applies at least one gate) is NEVER
+   refused by the importer model - provided no division by zero occurs while evaluating parameters (vdiv total).
+   The three open findings are outside this statement: empty gate bodies are excluded by wf (has_call); an empty `( )`
+   parameter list and `if(..) measure` have no counterpart in the syntax tree (they are refused by the tokenizer / final
+   pass of the real code, which the model does not contain). *)
+Theorem import_total : forall (A : VAlg), (forall a b : A, vdiv A a b <> None) ->
+  forall p, wf lib_sigs p = true -> import_prog A p <> None.
+Proof. exact import_total_thm. Qed.
+Print Assumptions import_total.
 
 (* non-vacuity *)
 Example rejects_instance :
@@ -148,6 +181,21 @@ Example custom_gate_ok_instance :
   exists Sg Gi Gs gs ls, init_gates sig0 [] (p_gates p) = Some (Sg, Gi) /\ gdefs (p_gates p) [] = Some Gs /\
     custom TermAlg Gi "h2" [TNum 3] [0; 1] = Some gs /\ expand TermAlg sig0 Gs "h2" [TNum 3] [0; 1] = Some ls /\ length gs = 3 /\ length ls = 3.
 Proof. do 5 eexists. repeat split; vm_compute; reflexivity. Qed.
+Example import_sound_instance :
+  let p := mkProg [("q", 2)] [("c", 2)]
+             [GDef "g" (mkGdef ["t"] ["a"; "b"] [BCall "rx" [EDiv (EId "t") (ENum 2)] ["a"]; BCall "cz" [] ["b"; "a"]])]
+             [OApp "h" [] [AReg "q"]; OMeasure (AIdx "q" 0) (AIdx "c" 0); OIf "c" 1 "g" [EPi] [AIdx "q" 1; AIdx "q" 0];
+              OIf "c" 7 "x" [] [AIdx "q" 0]; OMeasure (AReg "q") (AReg "c")] in
+  exists n c iops sops, import_prog TermAlg p = Some (n, c, iops) /\ spec_prog TermAlg sig0 p = Some (n, c, sops) /\
+    length iops = 6 /\ length sops = 7 /\ forallb (fun r => 0 <? snd r) (p_qregs p) = true.
+Proof. do 4 eexists. split; [vm_compute; reflexivity|]. split; [vm_compute; reflexivity|]. repeat split. Qed.
+Example import_total_instance :
+  let p := mkProg [("q", 2); ("r", 2)] [("c", 2)]
+             [GDef "g" (mkGdef ["t"] ["a"; "b"] [BCall "rx" [EDiv (EId "t") (ENum 2)] ["a"]; BBarrier ["a"]; BCall "cz" [] ["b"; "a"]])]
+             [OApp "cx" [] [AReg "q"; AReg "r"]; OMeasure (AIdx "q" 0) (AIdx "c" 0); OIf "c" 1 "g" [EPi] [AIdx "q" 1; AIdx "r" 0];
+              OBarrier [AReg "q"; AIdx "r" 1]; OMeasure (AReg "q") (AReg "c")] in
+  wf lib_sigs p = true /\ (forall a b : TermAlg, vdiv TermAlg a b <> None).
+Proof. split; [vm_compute; reflexivity|intros a b; discriminate]. Qed.
 Example regs_ok_instance : regs_gate true [("q", (0, 2)); ("r", (2, 2))] [AReg "q"; AIdx "r" 1] = Some [[0; 3]; [1; 3]].
 Proof. vm_compute. reflexivity. Qed.
 Example shortcut_ok_ccx : exists c1 c2, imp_sym "ccx" = Some c1 /\ std_with_phase "ccx" = Some c2 /\ length c1 = 1 /\ length c2 = 16
